@@ -120,7 +120,7 @@ def _worker_chunk(args):
     for idx in indices:
         seed = run_seed_for(mod.PROPERTY, verif_seed, kind, idx)
         try:
-            tape = Tape(seed)
+            tape = Tape(seed, index=idx)
             out = execute(mod, kind, tape)
             r = {
                 'kind': kind, 'index': idx, 'seed': seed,
@@ -134,7 +134,7 @@ def _worker_chunk(args):
             if out.violations:
                 r['tape'] = list(tape.rec)
             if recheck and derive_seed(seed, 'recheck') % recheck == 0:
-                out2 = execute(mod, kind, Tape(replay=tape.rec))
+                out2 = execute(mod, kind, Tape(replay=tape.rec, index=idx))
                 r['rechecked'] = True
                 if out2.digest() != out.digest():
                     r['nondet'] = (out.digest(), out2.digest())
@@ -188,20 +188,20 @@ def _kill_children(ex):
         pass
 
 
-def minimise(mod, kind, tape_values, clause_sig, max_runs):
+def minimise(mod, kind, tape_values, clause_sig, max_runs, index=0):
     def still(v):
-        out = execute(mod, kind, Tape(replay=v))
+        out = execute(mod, kind, Tape(replay=v, index=index))
         return any(x.signature == clause_sig for x in out.violations)
     return shrink(tape_values, still, max_runs=max_runs)
 
 
 def _shrink_job(args):
-    mod_name, kind, tape_values, sig, budget = args
+    mod_name, kind, tape_values, sig, budget, index = args
     import importlib
     mod = importlib.import_module(mod_name)
     if budget <= 0:
         return list(tape_values), 0
-    return minimise(mod, kind, tape_values, sig, budget)
+    return minimise(mod, kind, tape_values, sig, budget, index)
 
 
 def write_replay(mod, kind, verif_seed, r, clause_sig, min_tape, out, shrink_runs):
@@ -242,7 +242,8 @@ def run_check(mod, tier, verif_seed, workers=None, budget_scale=None):
     jobs = []
     recheck = getattr(mod, 'RECHECK', 50)
     for kind, count in plan:
-        count = max(1, int(count * scale))
+        if kind not in getattr(mod, 'FIXED_KINDS', ()):
+            count = max(1, int(count * scale))
         csize = max(1, min(getattr(mod, 'CHUNK', 20), count // (workers * 4) or 1))
         idx = list(range(count))
         for i in range(0, count, csize):
@@ -315,7 +316,7 @@ def run_check(mod, tier, verif_seed, workers=None, budget_scale=None):
     # reported with their original tape)
     shrunk = {}
     if todo:
-        jobs2 = [(mod.__name__, r['kind'], r['tape'], sig, max_shrink if i < 8 else 0)
+        jobs2 = [(mod.__name__, r['kind'], r['tape'], sig, max_shrink if i < 8 else 0, r['index'])
                  for i, (sig, r) in enumerate(todo)]
         if workers <= 1 or len(jobs2) == 1:
             for j in jobs2:
@@ -332,10 +333,10 @@ def run_check(mod, tier, verif_seed, workers=None, budget_scale=None):
     for sig, r in todo:
         try:
             min_tape, nruns = shrunk.get(sig, (r['tape'], 0))
-            out = execute(mod, r['kind'], Tape(replay=min_tape))
+            out = execute(mod, r['kind'], Tape(replay=min_tape, index=r['index']))
             if not any(v.signature == sig for v in out.violations):
                 min_tape, nruns = r['tape'], 0
-                out = execute(mod, r['kind'], Tape(replay=min_tape))
+                out = execute(mod, r['kind'], Tape(replay=min_tape, index=r['index']))
             path = write_replay(mod, r['kind'], verif_seed, r, sig, min_tape, out, nruns)
         except Exception:
             harness_errors.append('minimise: ' + traceback.format_exc()[-3000:])
@@ -400,7 +401,8 @@ def run_check(mod, tier, verif_seed, workers=None, budget_scale=None):
         'nondeterministic_runs': len(nondet),
         'components': mod.COMPONENTS,
         'known_findings_seen': known_seen,
-        'plan': [[str(k), int(max(1, int(c * scale)))] for k, c in plan],
+        'plan': [[str(k), int(c if k in getattr(mod, 'FIXED_KINDS', ()) else max(1, int(c * scale)))]
+                 for k, c in plan],
         'workers': workers,
         'shim_reads_parent': dict(__import__('simkit.env', fromlist=['x']).SHIM_READS),
     }
@@ -454,7 +456,7 @@ def run_replay(mod, path):
             return mod.replay_post(doc, path)
         print('post-phase finding; re-run the check to reproduce: %s' % doc.get('signature'))
         return 1
-    out = execute(mod, doc['kind'], Tape(replay=doc['tape']))
+    out = execute(mod, doc['kind'], Tape(replay=doc['tape'], index=doc.get('run_index', 0)))
     sig = doc['signature']
     hit = [v for v in out.violations if v.signature == sig]
     for ln in out.trace[-60:]:
